@@ -42,4 +42,25 @@ theorem fragCirc_zero : ∀ v ∈ [1, 2, 5, 6],
     gfShot 2 (RingHom.id Q8) (fun u => if u = v then 1 else 0) fragCirc (ket0 2, 0) = 0 := by
   decide +kernel
 
+/-! a second circuit, ending in a `measure_all` with permuted classical bits (the categorical node) -/
+
+def allCirc : List (COp Empty) :=
+  [.gate .H [0], .gate .CX [0, 1], .measure 0 2 .Z, .cond [2] 1 .H [1], .measureAll [1, 0] .Z]
+
+theorem allCirc_inF : ∀ op ∈ allCirc, InF 2 (placed 2) op := by
+  simp [allCirc, InF, placed, ctlOK, shiftOk, Gate.nrBits]
+
+def xT2 (v : Nat) : Q8 :=
+  if v = 0 then ⟨1, 1, 0, 0⟩ else if v = 6 then ⟨0, 1, 0, 0⟩ else if v = 7 then ⟨2, 0, 0, 5⟩ else ⟨0, 0, 0, 1/3⟩
+
+theorem law_on_allCirc :
+    expectOrd id (RingHom.id Q8) (execOps (vecBackend (α := Q8) (P := Empty)) (VecState.new 2 2) [0, 0] allCirc)
+      (SimGF.shotProd xT2) = gfShot 2 (RingHom.id Q8) xT2 allCirc (ket0 2, 0) ^ 2 := by decide +kernel
+
+/-- single-shot distribution: 000 with probability ½, 110 and 111 with probability ¼ each -/
+theorem allCirc_coeffs : gfShot 2 (RingHom.id Q8) (fun u => if u = 0 then 1 else 0) allCirc (ket0 2, 0) = q8Half ∧
+    gfShot 2 (RingHom.id Q8) (fun u => if u = 6 then 1 else 0) allCirc (ket0 2, 0) = q8Rat (1/4) ∧
+    gfShot 2 (RingHom.id Q8) (fun u => if u = 7 then 1 else 0) allCirc (ket0 2, 0) = q8Rat (1/4) := by
+  decide +kernel
+
 end Q1t.Sim.Witness
